@@ -133,6 +133,15 @@ func build(t tcase) renderings {
 	return renderings{left, right, format(mdiff.Normal, d.Chunks, fi), format(mdiff.Unified, d.Chunks, fi), format(mdiff.Context, d.Chunks, fi), d.Chunks}
 }
 
+// others returns two fixed diffs (multi-line hunks on both sides) used as
+// neighbours in multi-file git patches.
+var others = sync.OnceValues(func() (renderings, renderings) {
+	al := []string{"p", "q", "r", "s", "X", "Y", "Z"}
+	a := build(tcase{al, []int{0, 1, 2, 3}, []int{0, 4, 5, 3}, 1, 1})
+	b := build(tcase{al, []int{0, 1, 2, 3, 0, 1}, []int{1, 2, 6, 6, 0, 1}, 2, 2})
+	return a, b
+})
+
 func check(t tcase) *mc.Failure {
 	return mc.Guard(func() *mc.Failure {
 		r := build(t)
@@ -175,23 +184,40 @@ func check(t tcase) *mc.Failure {
 		if again := format(mdiff.Unified, p.Chunks, p.FileInfo); again != r.unified {
 			return mc.Failf(0, "roundtrip/unified: re-formatting the parsed patch gives\n%s\nwritten\n%s", again, r.unified)
 		}
-		// ---- round trip: git wrapper (needs a file header)
+		// ---- round trip: git wrapper (needs a file header). The patch is read
+		// alone, twice in a row, and between two *different* patches (a reader
+		// that reuses storage between file sections must not mix them up).
 		if fi != nil {
-			one := "diff --git a/x.go b/x.go\nindex 1234567..89abcde 100644\n" + r.unified
-			for copies := 1; copies <= 2; copies++ {
-				ps, err := mdiff.ReadGitPatch(strings.NewReader(strings.Repeat(one, copies)))
+			section := func(u string) string {
+				return "diff --git a/x.go b/x.go\nindex 1234567..89abcde 100644\n" + u
+			}
+			o1, o2 := others()
+			type sect struct {
+				text string
+				want []*mdiff.Chunk
+			}
+			this := sect{r.unified, r.chunks}
+			for _, seq := range [][]sect{{this}, {this, this}, {{o1.unified, o1.chunks}, this, {o2.unified, o2.chunks}}, {this, {o2.unified, o2.chunks}}} {
+				var text string
+				for _, sc := range seq {
+					text += section(sc.text)
+				}
+				ps, err := mdiff.ReadGitPatch(strings.NewReader(text))
 				if err != nil {
-					return mc.Failf(0, "roundtrip/git: ReadGitPatch (%d patches): %v\n%s", copies, err, one)
+					return mc.Failf(0, "roundtrip/git: ReadGitPatch (%d patches): %v\n%s", len(seq), err, text)
 				}
-				if len(ps) != copies {
-					return mc.Failf(0, "roundtrip/git: %d patches read, %d written\n%s", len(ps), copies, one)
+				if len(ps) != len(seq) {
+					return mc.Failf(0, "roundtrip/git: %d patches read, %d written\n%s", len(ps), len(seq), text)
 				}
-				for _, gp := range ps {
-					if d := sameChunks(gp.Chunks, r.chunks); d != "" {
-						return mc.Failf(0, "roundtrip/git: %s; text:\n%s", d, one)
+				for i, gp := range ps {
+					if d := sameChunks(gp.Chunks, seq[i].want); d != "" {
+						return mc.Failf(0, "roundtrip/git: patch %d of %d: %s; text:\n%s", i+1, len(seq), d, text)
 					}
-					if gp.FileInfo == nil || gp.FileInfo.Left != fi.Left || gp.FileInfo.Right != fi.Right {
+					if gp.FileInfo == nil || gp.FileInfo.Left == "" || gp.FileInfo.Right == "" {
 						return mc.Failf(0, "roundtrip/git: file names lost")
+					}
+					if again := format(mdiff.Unified, gp.Chunks, gp.FileInfo); again != seq[i].text {
+						return mc.Failf(0, "roundtrip/git: re-formatting patch %d of %d gives\n%s\nwritten\n%s", i+1, len(seq), again, seq[i].text)
 					}
 				}
 			}
